@@ -422,6 +422,8 @@ fn run_threaded(scn: Scn, cfg: &StuckCfg, canary: &Canary) -> (Vec<Finding>, Vec
   if let Some(s) = &stuck_report {
     if s.canary_max_gap_us > cfg.canary_limit_us {
       inconclusive.push("stuck window with unhealthy canary".into());
+    } else if s.parked == Some(false) {
+      inconclusive.push("quiet window with runnable (starved or spinning) threads: not a parked-forever verdict".into());
     } else if s.nudge_released || s.model_enabled {
       f.push(Finding {
         rule: if scn.kind == 1 { "try-variant-blocked-or-stuck".into() } else { "stuck".into() },
